@@ -131,8 +131,11 @@ def check_flavour_tables(ctx, rule="C01.U"):
         raise AnalysisError("Flavour.__init__ not found")
     maps = {}
     for n in A.body_nodes(init):
-        if isinstance(n, (ast.DictComp,)):
-            maps.setdefault(src(n.key), []).append(src(n.value))
+        if isinstance(n, (ast.DictComp,)) and len(n.generators) == 1 and isinstance(n.generators[0].target, ast.Name):
+            tv = n.generators[0].target.id  # the class iterated over, whatever the loop variable is called
+            key = f"instr.{n.key.attr}" if isinstance(n.key, ast.Attribute) and isinstance(n.key.value, ast.Name) and n.key.value.id == tv else src(n.key)
+            val = "instr" if isinstance(n.value, ast.Name) and n.value.id == tv else src(n.value)
+            maps.setdefault(key, []).append(val)
     ok = "instr.id" in maps and "instr.mnemonic" in maps and all(v == "instr" for vs in maps.values() for v in vs)
     ctx.check(rule, "Flavour.__init__:tables-keyed-by-id-and-mnemonic", ok,
               f"Flavour.__init__ builds tables keyed by {sorted(maps)} (expected instr.id and instr.mnemonic mapping to the class itself)",
